@@ -111,6 +111,10 @@ func init() {
 			{Name: "packed", Run: c13Packed},
 			{Name: "random", TShards: 2, Run: c13Random},
 			{Name: "bytes", Run: c13Bytes},
+			{Name: "longcontext", TShards: 2, Run: func(c *Ctx) {
+				longContextPanics(c, 0, "ACGTacgt", []byte{'N', 'U', 'u', '@', 0, 0xff, 'B', 0x80, '`'}, map[string]func([]byte){
+					"DNATo2Bit": func(s []byte) { sequtil.DNATo2Bit(nil, s) }})
+			}},
 			{Name: "readers", Race: true, QShards: 2, TShards: 4, Run: c13Readers},
 			{Name: "parallel", Race: true, Run: sequtilParallel("pack")},
 		},
@@ -128,6 +132,11 @@ func init() {
 			{Name: "panics", Run: c14Panics},
 			{Name: "aminoname", Run: c14AminoName},
 			{Name: "framepanics", Run: c14FramePanics},
+			{Name: "longcontext", TShards: 2, Run: func(c *Ctx) {
+				longContextPanics(c, 0, "ACGTacgt", []byte{'N', 'U', '@', 0, 0xff, 0x80}, map[string]func([]byte){
+					"Translate":              func(s []byte) { sequtil.Translate(nil, append(append([]byte{}, s...), "AA"[:(3-len(s)%3)%3]...)) },
+					"TranslateReadingFrames": func(s []byte) { sequtil.TranslateReadingFrames(s) }})
+			}},
 			{Name: "parallel", Race: true, Run: sequtilParallel("translate")},
 		},
 	})
@@ -858,4 +867,47 @@ func c14AminoName(c *Ctx) {
 		k.DistinctBC(256)
 	})
 	c.Exhaustive("aminoname: all 256 byte values")
+}
+
+// longContextPanics: one invalid byte at EVERY index of valid sequences of 33
+// to 257 bases (all one base, or random) — validation that is batched, deferred
+// to the end of the call, or carried in an accumulator loses a bad byte that
+// is far enough from the end, or at a particular offset inside a word.
+// calls lists the functions that must panic on such input.
+func longContextPanics(c *Ctx, idx0 int64, valid string, invalid []byte, calls map[string]func(s []byte)) int64 {
+	lengths := []int{33, 34, 40, 63, 64, 65, 66, 80, 129, 257}
+	if c.Thorough {
+		lengths = append(lengths, 35, 36, 37, 47, 48, 49, 96, 127, 128, 130, 255, 256, 258, 513, 1025)
+	}
+	idx := idx0
+	for _, l := range lengths {
+		c.Case(idx, func(k *K) {
+			r := k.Rand()
+			fills := [][]byte{bytes.Repeat([]byte{valid[0]}, l), bytes.Repeat([]byte{valid[len(valid)-1]}, l), randSeq(r, []byte(valid), l), bytes.Repeat([]byte{valid[1]}, l)}
+			for fi, fill := range fills {
+				for _, b := range invalid {
+					for p := 0; p < l; p++ {
+						s := append([]byte{}, fill...)
+						s[p] = b
+						for name, call := range calls {
+							if !expectPanic(func() { call(s) }) {
+								k.Input("length", l)
+								k.Input("fill", fi)
+								k.Input("byte", b)
+								k.Input("index", p)
+								k.Input("seq", s)
+								k.Failf("missing-panic", "%s: byte %q at index %d of an otherwise valid sequence of %d bases (fill %d) did not cause a panic", name, b, p, l, fi)
+								return
+							}
+						}
+						k.Count("long_context_panics", int64(len(calls)))
+					}
+				}
+			}
+			k.Evals(int64(len(fills)*len(invalid)*l - 1))
+			k.Nontrivial([]byte(fmt.Sprint("longctx", l, valid)))
+		})
+		idx++
+	}
+	return idx
 }
